@@ -461,6 +461,9 @@ class Maint(Single):
         case["sent"] = [o.hex() for o in outs[:6]]
         if any((parse_out(o) or {}).get("type", 0) & T_ACK for o in outs):
             viol.append(("acknowledgement_sent_by_the_event_loop_not_by_the_handling_of_a_message", case))
+        if any(is_rrs_success_answer(o, ip) for o in outs for ip in (IP_A, IP_B)):
+            # every registration request was answered once, in the call that handled it: an answer from a loop callback is a second one
+            viol.append(("registration_answered_again_by_the_event_loop", case))
         if self.impl.hstrp_connected != self.m_connected:
             viol.append(("connected_flag_changed_without_a_connect_or_close", {**case, "flag": self.impl.hstrp_connected, "model": self.m_connected}))
             self.m_connected = self.impl.hstrp_connected
@@ -683,6 +686,7 @@ WHAT = {
     "connected_flag_changed_without_a_connect_or_close": "the event loop (maintenance task / a timer), not a connect or close message, changed hstrp_connected",
     "registry_changed_without_a_message": "the event loop (maintenance task / a timer), not a radio's message, changed the registry",
     "acknowledgement_sent_by_the_event_loop_not_by_the_handling_of_a_message": "an acknowledgement was sent from a loop callback: every message is acknowledged once, in the call that handles it",
+    "registration_answered_again_by_the_event_loop": "a registration success answer was sent from a loop callback: each registration request is answered by one success answer, in the call that handles it",
 }
 
 
